@@ -1546,6 +1546,19 @@ impl KotoVm {
                         }
                     }
                 }
+                // The result of an `@iterator` function can be any iterable value (it's placed in
+                // the register as it is by `run_make_iterator`),
+                // so make an iterator from it now and then continue.
+                iterable @ (List(_) | Map(_) | Object(_)) => {
+                    let iterator = self.make_iterator(iterable)?;
+                    self.set_register(iterable_register, iterator.into());
+                    return self.run_iterator_next(
+                        result_register,
+                        iterable_register,
+                        jump_offset,
+                        output_is_temporary,
+                    );
+                }
                 unexpected => return unexpected_type("Iterator", &unexpected),
             }
         };
